@@ -55,16 +55,27 @@ def canon(v):
   return v
 
 
-def apply(items, order):
+def run_actions(action_lists, consts=()):
+  """fresh world, the program-level constants, then the actions of every item in the given order"""
   world.fresh()
   gin.constant('vwc.K', 5)
-  seq = [items[i] for i in order]
-  for item in seq:
-    for act in CAT[item]:
+  for name, value in consts:
+    if name is not None:
+      gin.constant(name, value)
+  for acts in action_lists:
+    for act in acts:
       if act[0] == 'text':
         gin.parse_config(act[1])
+      elif act[0] == 'skip':
+        gin.parse_config(act[1], skip_unknown=True)
+      elif act[0] == 'const':              # a constant the PROGRAM defines after the bindings were made
+        gin.constant(act[1], act[2])
       else:
         gin.bind_parameter(act[1], act[2])
+
+
+def apply(items, order):
+  run_actions([CAT[items[i]] for i in order])
 
 
 def store():
@@ -75,23 +86,52 @@ def store():
   return out
 
 
-def check_text(text, items):
-  """Round trip, canonical order, parse-ability of one config string."""
+def check_markdown(text):
+  """'Its Markdown rendering keeps every binding line verbatim': every non-comment line of the text (binding
+  lines and their continuation lines) is a code line (4 spaces + the line) of the rendering, in the same order."""
+  md = [l for l in gin.config.markdown(text).split('\n') if l.startswith('    ') and l.strip()]
+  pos = 0
+  for line in text.split('\n'):
+    if not line.strip() or line.startswith('#'):
+      continue
+    while pos < len(md) and md[pos] != '    ' + line:
+      pos += 1
+    if pos == len(md):
+      return rt.no('markdown lost (or reordered) the line %r' % line)
+    pos += 1
+  return True
+
+
+def check_text(text, items, omit=None, either=(), consts=(), eqonly=()):
+  """Round trip, canonical order, parse-ability of one config string.
+
+  omit: keys whose value has no literal form (must be absent after the re-parse); either: keys on which the
+  statement takes no side (may be omitted; when restored the value must be equal and of the same type); eqonly:
+  keys bound to an instance of a SUBCLASS of a literal type (class MyInt(int)): such a value has no literal form of
+  its own, so the statement demands nothing of it beyond the text parsing - it may be omitted, or come back as an
+  equal value of the literal base type (what today's code does) or of the subclass."""
+  omit = UNREPRESENTABLE if omit is None else omit
   before = store()
   imports_before = set(i.module for i in gc._IMPORTS)
   # (1) parses into a cleared configuration
   world.fresh()
   gin.constant('vwc.K', 5)
+  for name, value in consts:
+    gin.constant(name, value)
   try:
     gin.parse_config(text)
   except Exception as e:
     return rt.no('config string does not parse: %r\n%s' % (e, text))
   after = store()
   # (2) every literally representable binding is back, same value and type; others absent
-  want = {k: v for k, v in before.items() if k not in UNREPRESENTABLE}
+  want = {k: v for k, v in before.items() if k not in omit and (k not in either or k in after)}
   if set(after) != set(want):
     return rt.no('bindings restored %r, expected %r\n%s' % (sorted(after), sorted(want), text))
   for k in want:
+    if k in eqonly:
+      if not (after[k] == want[k] and isinstance(want[k], type(after[k]))):
+        return rt.no('value of %r: %r is not %r as its literal base type' % (k, after[k], want[k]))
+      continue
     if not literal.same_value(canon(after[k]), canon(want[k])):
       return rt.no('value of %r: %r != %r' % (k, after[k], want[k]))
   if set(i.module for i in gc._IMPORTS) != imports_before:
@@ -122,25 +162,21 @@ def check_text(text, items):
     if ps != sorted(ps):
       return rt.no('parameters of %s not sorted: %r' % (k, ps))
   # markdown keeps every binding line verbatim
-  md = gin.config.markdown(text).split('\n')
-  for line in text.split('\n'):
-    if line and not line.startswith('#') and ('    ' + line) not in md:
-      return rt.no('markdown lost the line %r' % line)
-  return True
+  return check_markdown(text)
 
 
 def c06_roundtrip(n: int, i0: int, i1: int, i2: int, i3: int, perm: int) -> bool:
   """
   pre: 0 <= n <= 4 and 0 <= i0 < 25 and 0 <= i1 < 25 and 0 <= i2 < 25 and 0 <= i3 < 25 and 0 <= perm < 3
   """
-  # subsets, not sequences: each index is chosen above the previous one
+  # subsets, not sequences: i0 < i1 < ... ARE the catalogue indices (the match predicates of known_findings.json
+  # speak about them); each one is searched above the previous one, anything else is discarded at once
   idx = []
   prev = -1
   for ik in (i0, i1, i2, i3)[:n]:
-    room = NC - prev - 1
-    if room <= 0:
+    if ik <= prev:
       rt.discard()
-    prev = prev + 1 + rt.pick(ik, room)
+    prev = prev + 1 + rt.pick(ik - prev - 1, NC - prev - 1)
     idx.append(prev)
   perm = rt.pick(perm, 3)
   with rt.native():
@@ -168,11 +204,19 @@ WVALS = [
 ]
 
 
+S_MIX = 'it\'s "q" \\ back\nslash and spaces ' * 3          # pprint wraps it; every chunk picks its own quote style
+WVALS += [
+    S_MIX,
+    [S_MIX, {'k': 'both \' and " quotes\n' * 4}, ('one tuple \' " \\\n spaced ' * 3,)],
+    [' lead', 'trail ', '\n', ' ', '', '\t tab\t', ' \n both \n ', "'", '"', '\\'],
+    [b'by\'tes "with" quotes\\ \n' * 3, b'', b"'", b'"', b'\\'],
+    {"only ' single": 'only " double', ('t', 'u' * 30): ' ' * 10 + "'" * 3 + '"' * 3 + ' ' * 10 + '\\n'},
+]
+NW = len(WVALS)
+
+
 def c06_pformat_width(v: int, w: int) -> bool:
-  """
-  pre: 0 <= v < 7 and w >= 1
-  """
-  v = rt.pick(v, 7)
+  v = rt.pick(v, NW)
   with rt.native():
     rt.sig(('pformat', v), nontrivial=True)
   value = WVALS[v]
@@ -183,11 +227,11 @@ def c06_pformat_width(v: int, w: int) -> bool:
     return literal.same_value(back, value) or rt.no('layout %r' % text)
 
 
+c06_pformat_width.__doc__ = 'pre: 0 <= v < %d and w >= 1' % NW
+
+
 def c06_width(item: int, indent: int, width: int) -> bool:
-  """
-  pre: 0 <= item < 7 and 0 <= indent < 4 and 0 <= width < 52
-  """
-  item = rt.pick(item, 7)
+  item = rt.pick(item, NW)
   indent = [0, 1, 4, 8][rt.pick(indent, 4)]
   width = rt.pick(width, 52)
   width = indent + 1 + width if width < 49 else [80, 120, 200][width - 49]
@@ -195,7 +239,9 @@ def c06_width(item: int, indent: int, width: int) -> bool:
     rt.sig(('width', item, indent, width), nontrivial=True)
     world.fresh()
     gin.bind_parameter('vw.kws.value', WVALS[item])
-    gin.bind_parameter('s/vw.kws.other', WVALS[(item + 1) % 7])
+    gin.bind_parameter('s/vw.kws.other', WVALS[(item + 1) % NW])
+    gin.bind_parameter(('wm', 'gin.macro', 'value'), WVALS[(item + 2) % NW])   # a macro in continuation form
+    gin.bind_parameter('vw.kws.m', gc.ConfigurableReference('wm/gin.macro', True))
     text = gin.config_str(max_line_length=width, continuation_indent=indent)
     before = store()
     world.fresh()
@@ -204,11 +250,120 @@ def c06_width(item: int, indent: int, width: int) -> bool:
     except Exception as e:
       return rt.no('does not parse at width %d indent %d: %r\n%s' % (width, indent, e, text))
     after = store()
-    if set(after) != set(before) or not all(literal.same_value(after[k], before[k]) for k in before):
+    if set(after) != set(before) or not all(literal.same_value(canon(after[k]), canon(before[k])) for k in before):
       return rt.no('values changed at width %d indent %d' % (width, indent))
     if gin.config_str(max_line_length=width, continuation_indent=indent) != text:
       return rt.no('second serialisation differs at width %d' % width)
-    return True
+    # the Markdown rendering at this width (rule lines shorter than '====' below width 6, continuation lines)
+    return check_markdown(text)
+
+
+c06_width.__doc__ = 'pre: 0 <= item < %d and 0 <= indent < 4 and 0 <= width < 52' % NW
+
+
+# ---- further input kinds, alone and paired with one other item -------------------------------------------------
+class MyInt(int):
+  pass
+
+
+class EqRaises:
+  """repr parses as a list, comparing raises (as an array-valued __eq__ does inside bool())"""
+  __hash__ = None
+
+  def __repr__(self):
+    return '[1, 2]'
+
+  def __eq__(self, other):
+    raise ValueError('the truth value of this comparison is ambiguous')
+
+
+def K(name, acts, omit=(), either=(), consts=(), eqonly=()):
+  return dict(name=name, acts=acts, omit=set(omit), either=set(either), consts=list(consts), eqonly=set(eqonly))
+
+
+KW = lambda p: ('', 'vw.kws', p)
+LONGLIST = [['word %d' % i, i] for i in range(12)]
+SKIP_TEXT = ("vw.kws.u1 = @nosuch()\nvw.kws.u2 = [1, @nosuch]\nvw.kws.u3 = {'k': (@nosuch.thing(),)}\n"
+             "vw.kws.ukeep = [1]\n")
+# Kinds 0-5 are reported individually (each is ONE pick value of k and is never a partner); 6.. are also partners.
+KCAT = [
+    K('scope name with a period (config_scope accepts it)', [('bind', 'a.b/vw.dflt.a', 1)]),
+    K('**kwargs name only a tuple key can carry', [('bind', ('', 'vw.kws', 'a-b'), 1)]),
+    K('scope only a tuple key can carry', [('bind', ('a b', 'vw.dflt', 'b'), 1)]),
+    K('int subclass', [('bind', 'vw.kws.mi', MyInt(5)), ('bind', 'vw.kws.mk', 5)], either=[KW('mi')], eqonly=[KW('mi')]),
+    K('repr parses, == raises', [('bind', 'vw.kws.eqr', EqRaises()), ('bind', 'vw.kws.eqk', 1)], omit=[KW('eqr')]),
+    K('macro shadowed by a constant the program defines later',
+      [('text', 'SK = 1'), ('text', 'vw.kws.sh = %SK'), ('text', 'vw.kws.sh2 = 2'), ('const', 'zz.SK', 7)],
+      consts=[('zz.SK', 7)]),
+    # ---- 6
+    K('reference scope with a period', [('text', 'vw.kws.dr = @a.b/vw.src()')]),
+    K('**kwargs names import / include', [('text', 'vw.kws.import = 1'), ('text', 'vw.kws.include = 2')]),
+    K('configurable named include', [('text', 'vw.kw.include.x = 1')]),
+    K('configurable named import', [('text', 'vw.kw.import.x = 2')]),
+    K('skip_unknown placeholders alone and nested', [('skip', SKIP_TEXT)], omit=[KW('u1'), KW('u2'), KW('u3')]),
+    K('macro bound to a skip_unknown placeholder, and its use',
+      [('skip', 'nm2 = @nosuch()\nvw.kws.u4 = %nm2\n')], omit=[('nm2', 'gin.macro', 'value')]),
+    K('scoped macro', [('text', 's/mac2 = 3'), ('text', 'vw.kws.sm = %s/mac2')]),
+    K('macro holding an evaluated scoped reference', [('text', 'mref = @s/vw.src()'), ('text', 'vw.kws.mr = [%mref]')]),
+    K('macro chain', [('text', 'mc2 = %mc1'), ('text', 'mc1 = 3'), ('text', 'vw.kws.ch = %mc2')]),
+    K('macro longer than the line', [('text', 'longmac = %r' % (LONGLIST,))]),
+    K('wrapped string macro with both quotes', [('bind', ('strmac', 'gin.macro', 'value'), S_MIX * 2)]),
+    K('partial reference', [('text', 'vw.kws.r1 = @src()')]),
+    K('family members needing two components', [('text', 'vw.kws.r2 = [@x.m.fam, @y.m.fam()]')]),
+    K('method references', [('text', 'vw.kws.r3 = [@vw.Kmeth.meth, @Kmeth.meth]')]),
+    K('two-scope evaluated reference', [('text', 'vw.kws.r4 = @s1/s2/vw.src()')]),
+    K('two imports bound to one alias', [('text', 'import string as x'), ('text', 'import textwrap as x')]),
+    K('one module in plain and from form', [('text', 'import xml.dom'), ('text', 'from xml import dom')]),
+    K('two plain imports binding one package name', [('text', 'import xml.sax'), ('text', 'import xml.parsers')]),
+    K('float / complex / int specials',
+      [('bind', 'vw.kws.nz', -0.0), ('bind', 'vw.kws.j', 1j), ('bind', 'vw.kws.inf', float('inf')),
+       ('bind', 'vw.kws.ninf', [float('-inf')]), ('bind', 'vw.kws.cj', 1 + 2j), ('bind', 'vw.kws.big', -10 ** 30),
+       ('bind', 'vw.kws.e', 1e300)],
+      either=[KW('inf'), KW('ninf'), KW('cj')]),   # no literal form in today's syntax: omitted, or restored equal
+    K('singleton', [('text', 'k/gin.singleton.constructor = @vw.src'), ('text', 'vw.kws.sg = @k/gin.singleton()')]),
+    K('wrapped strings nested in list / dict / 1-tuple, edge whitespace, bytes', [('bind', 'vw.kws.strs', WVALS[8:11])]),
+    K('partial constant name', [('text', 'vw.kws.pc = %K')]),
+]
+NK = len(KCAT)
+NREPORT = 6
+PARTNERS = [None] + [K('CAT %d' % i, CAT[i], omit=UNREPRESENTABLE) for i in range(NC) if i not in (15, 16, 17, 20)] \
+    + KCAT[NREPORT:]
+NP = len(PARTNERS)
+
+
+def c06_kinds(k: int, j: int, perm: int) -> bool:
+  k = rt.pick(k, NK)
+  j = rt.pick(j, NP)
+  perm = rt.pick(perm, 2)
+  with rt.native():
+    first = KCAT[k]
+    second = PARTNERS[j]
+    if second is first:
+      rt.discard()
+    both = [first] + ([second] if second is not None else [])
+    if perm == 1:
+      if second is None:
+        rt.discard()
+      both = both[::-1]
+    rt.sig(('kinds', k, j, perm), nontrivial=True)
+    omit = set().union(*[b['omit'] for b in both])
+    either = set().union(*[b['either'] for b in both])
+    consts = [c for b in both for c in b['consts']]
+    eqonly = set().union(*[b.get('eqonly', set()) for b in both])
+    try:
+      run_actions([b['acts'] for b in both])
+      text = gin.config_str()
+      # (4) the text depends only on the set of bindings, not on the order they were made
+      run_actions([b['acts'] for b in both[::-1]])
+      other = gin.config_str()
+    except Exception as e:
+      return rt.no('config_str() raised %r' % (e,))
+    if other != text:
+      return rt.no('binding order changes the text:\n%s\n---\n%s' % (text, other))
+    return check_text(text, None, omit=omit, either=either, consts=consts, eqonly=eqonly)
+
+
+c06_kinds.__doc__ = 'pre: 0 <= k < %d and 0 <= j < %d and 0 <= perm < 2' % (NK, NP)
 
 
 HARNESSES = {
@@ -218,33 +373,56 @@ HARNESSES = {
                  'gin.config:minimal_selector', 'gin.config:__repr__'],
         smoke=[dict(n=4, i0=0, i1=3, i2=4, i3=13, perm=1), dict(n=3, i0=5, i1=6, i2=18, i3=0, perm=2)],
         tiers={'quick': dict(split=dict(i0=list(range(NC)), perm=[0, 1, 2]), fixed=dict(n=3, i3=0), budget_s=100),
-               'thorough': dict(split=dict(i0=list(range(NC)), i1=list(range(NC)), perm=[0, 1, 2]),
+               # i1 <= i0 partitions are discarded at once; i1 starts at 1 so that the first partition (twin) is not
+               'thorough': dict(split=dict(i0=list(range(NC)), i1=list(range(1, NC)), perm=[0, 1, 2]),
                                 fixed=dict(n=4), budget_s=600)},
         bounds='every subset of 3 (quick) / 4 (thorough) items of a 25-item catalogue (nested containers, a 70-char '
                'string, @ref, scoped and evaluated refs, macro + use, module-qualified sibling names, configurable names / '
                'scopes / macro names that differ only in case, a registered method, a macro bound to a non-literal, '
                'object(), nan, a set, a list holding an object, exotic literals, a constant reference, three import forms) bound in 3 orders'),
+    'c06_kinds': dict(
+        fn='c06_kinds',
+        anchors=['gin.config:_config_str', 'gin.config:_format_value', 'gin.config:markdown', 'gin.config:add_import',
+                 'gin.config:__repr__', 'gin.config:macro'],
+        smoke=[dict(k=i, j=0, perm=0) for i in range(NREPORT, NK)] + [dict(k=12, j=NP - 1, perm=1)],
+        tiers={'quick': dict(split=dict(k=list(range(NK))), budget_s=100),
+               'thorough': dict(split=dict(k=list(range(NK)), perm=[0, 1]), budget_s=300)},
+        bounds='%d further kinds, each alone and paired in both binding orders with every one of %d partners (21 items of '
+               'the c06_roundtrip catalogue + the kinds 6..): scope / **kwargs names that only config_scope or a tuple '
+               'key can carry, an int subclass, a value whose == raises, a macro shadowed by a later constant '
+               '(kinds 0-5, one pick value each); dotted reference scope, names import/include, skip_unknown '
+               'placeholders (alone, nested, as macro), scoped / reference-holding / chained / long / wrapped-string '
+               'macros, partial / two-component / method / two-scope reference spellings, colliding and duplicate '
+               'imports without dynamic registration, -0.0 1j inf -inf 1+2j big ints, gin.singleton, nested wrapped '
+               'strings, a partial constant name' % (NK, NP - 1)),
     'c06_pformat_width': dict(
         fn='c06_pformat_width',
         anchors=[],
         smoke=[dict(v=1, w=7)],
-        tiers={'quick': dict(split=dict(v=list(range(7))), budget_s=100),
-               'thorough': dict(split=dict(v=list(range(7))), budget_s=600)},
-        bounds='7 catalogue values; the pprint width is an UNBOUNDED symbolic integer >= 1 (every layout pprint can '
-               'produce for the value is a path)'),
+        tiers={'quick': dict(split=dict(v=list(range(NW))), budget_s=100),
+               'thorough': dict(split=dict(v=list(range(NW))), budget_s=600)},
+        bounds='12 catalogue values (5 of them strings that pprint wraps: both quote kinds, backslashes, newlines, edge '
+               'whitespace, nested in list / dict value / 1-tuple / dict key, bytes with quotes); the pprint width is an '
+               'UNBOUNDED symbolic integer >= 1 (every layout pprint can produce for the value is a path)'),
     'c06_width': dict(
         fn='c06_width',
         anchors=['gin.config:_config_str', 'gin.config:format_binding'],
         smoke=[dict(item=1, indent=2, width=3), dict(item=3, indent=0, width=50)],
-        tiers={'quick': dict(split=dict(item=list(range(7)), indent=[0, 1, 2, 3]), budget_s=100),
-               'thorough': dict(split=dict(item=list(range(7)), indent=[0, 1, 2, 3]), budget_s=300)},
+        tiers={'quick': dict(split=dict(item=list(range(NW)), indent=[0, 1, 2, 3]), budget_s=100),
+               'thorough': dict(split=dict(item=list(range(NW)), indent=[0, 1, 2, 3]), budget_s=300)},
         bounds='continuation_indent in {0,1,4,8} x max_line_length in [indent+1, indent+49] + {80,120,200} through the '
-               'real config_str for 7 value pairs'),
+               'real config_str for 12 value triples (a parameter, a scoped parameter, a macro and its use); re-parse, '
+               'stability and the Markdown rendering (ordered, incl. continuation lines and rule lines shorter than 4) '
+               'at every one of these widths'),
 }
-RULE = 'one case per distinct catalogue subset x order / (value, layout) / (value, indent, width); non-trivial: at least two items'
+RULE = ('one case per distinct catalogue subset x order / (kind, partner, order) / (value, layout) / (value, indent, width); '
+        'non-trivial: at least two items (c06_kinds: every case)')
 SOLVER_ROLE = ('c06_pformat_width decides data (the width is an unbounded solver variable through the real pprint code); the '
                'other two certify coverage (config_str stringifies everything, so leaves are concrete)')
-OUTSIDE = ('catalogue values only; dynamic registration (C19 harness); the combination "any width = a pprint layout covered by '
+OUTSIDE = ('catalogue values only; show_provenance=True (the statement does not speak about it); operative_config_str (C07); '
+           'configurables whose __qualname__ is not an attribute path of their module under dynamic registration; '
+           'c06_kinds pairs, not triples; aliases of imports are compared by module only (without dynamic registration '
+           'an alias has no observable effect); the combination "any width = a pprint layout covered by '
            'the lemma inside one of the two wrappers covered by c06_width" is an argument, not a single solver verdict')
 
 
@@ -262,6 +440,11 @@ DCAT = [
     [('bind', 's/vfx.zeta.ZCls.x', 5)],
     [('text', 'from __gin__ import dynamic_registration\nimport vfx.alpha.mod\nvfx.alpha.mod.Cls.meth.m = 6\n')],
     [('text', 'from __gin__ import dynamic_registration\nfrom vfx.alpha import mod\nmod.Outer.Inner.y = @mod.fn\n')],
+    # values that are not plain configurable references (the import of item 1, so that no further alias of a module appears)
+    [('text', 'from __gin__ import dynamic_registration\nfrom vfx.beta import mod as bm\nbm.fn.y = [%vwc.K]\n')],
+    [('text', 'from __gin__ import dynamic_registration\nfrom vfx.beta import mod as bm\ndm = 3\nbm.Cls.x = %dm\n')],
+    [('text', 'from __gin__ import dynamic_registration\nfrom vfx.beta import mod as bm\n'
+              'k/gin.singleton.constructor = @bm.Cls\ns9/bm.fn.y = @k/gin.singleton()\n')],
 ]
 ND = len(DCAT)
 
@@ -271,6 +454,7 @@ def _dapply(items, order):
   import vfx.gamma, vfx.zeta   # registers the decorated configurables
   world.fresh()
   c19.cleanup_vfx()
+  gin.constant('vwc.K', 5)
   gin.parse_config('from __gin__ import dynamic_registration\n')
   for i in order:
     for act in DCAT[items[i]]:
@@ -280,12 +464,26 @@ def _dapply(items, order):
         gin.bind_parameter(act[1], act[2])
 
 
-def c06_dynamic(d0: bool, d1: bool, d2: bool, d3: bool, d4: bool, d5: bool, d6: bool, perm: int) -> bool:
+def canon_dyn(v):
+  """as canon(), but a reference is its scopes + the object it names + evaluate (its spelling depends on the imports)"""
+  if isinstance(v, gc.ConfigurableReference):
+    return ('REF', tuple(v.scopes), repr(v.configurable.wrapped), v.evaluate)
+  if isinstance(v, list):
+    return [canon_dyn(x) for x in v]
+  if isinstance(v, tuple):
+    return ('TUPLE',) + tuple(canon_dyn(x) for x in v)
+  if isinstance(v, dict):
+    return {('KEY', k): canon_dyn(x) for k, x in v.items()}
+  return v
+
+
+def c06_dynamic(d0: bool, d1: bool, d2: bool, d3: bool, d4: bool, d5: bool, d6: bool, perm: int,
+                d7: bool = False, d8: bool = False, d9: bool = False) -> bool:
   """
   pre: 0 <= perm < 3
   """
   from vf.harness import c19
-  bits = [rt.flag(b) for b in (d0, d1, d2, d3, d4, d5, d6)]
+  bits = [rt.flag(b) for b in (d0, d1, d2, d3, d4, d5, d6, d7, d8, d9)]
   perm = rt.pick(perm, 3)
   items = [i for i in range(ND) if bits[i]]
   with rt.native():
@@ -302,6 +500,7 @@ def c06_dynamic(d0: bool, d1: bool, d2: bool, d3: bool, d4: bool, d5: bool, d6: 
         return rt.no('binding order changes the text:\n%s\n---\n%s' % (text, gin.config_str()))
       before = {k: dict(d) for k, d in gc._CONFIG.items()}
       targets = {k: gc._REGISTRY[k[1]].wrapped for k in before}
+      imports_before = set(i.module for i in gc._IMPORTS)
       # parse into a cleared configuration
       gc._CONFIG.clear(); gc._CONFIG_PROVENANCE.clear(); gc._IMPORTS.clear()
       try:
@@ -314,6 +513,13 @@ def c06_dynamic(d0: bool, d1: bool, d2: bool, d3: bool, d4: bool, d5: bool, d6: 
       want_targets = sorted((k[0], repr(targets[k]), tuple(sorted(d))) for k, d in before.items())
       if got_targets != want_targets:
         return rt.no('objects configured after re-parse %r, before %r\n%s' % (got_targets, want_targets, text))
+      for k, d in before.items():
+        for prm, v in d.items():
+          if not literal.same_value(canon_dyn(after[k][prm]), canon_dyn(v)):
+            return rt.no('value of %r.%s: %r != %r' % (k, prm, after[k][prm], v))
+      # the recorded imports are restored (imports the text had to add for configurables no file imported are fine)
+      if not imports_before <= set(i.module for i in gc._IMPORTS):
+        return rt.no('recorded imports not restored: %r' % sorted(imports_before - set(i.module for i in gc._IMPORTS)))
       again = gin.config_str()
       if again != text:
         return rt.no('second serialisation differs:\n%s\n---\n%s' % (text, again))
@@ -335,9 +541,13 @@ HARNESSES['c06_collide'] = dict(
 HARNESSES['c06_dynamic'] = dict(
     fn='c06_dynamic',
     anchors=['gin.config:_config_str', 'gin.config:require_configurable', 'gin.config:add_import'],
-    smoke=[dict(d0=True, d1=True, d2=True, d3=True, d4=False, d5=True, d6=False, perm=1)],
-    tiers={'quick': dict(split=dict(d0=[False, True], d1=[False, True], perm=[0, 1, 2]), budget_s=100),
-           'thorough': dict(split=dict(d0=[False, True], d1=[False, True], perm=[0, 1, 2]), budget_s=300)},
-    bounds='dynamic registration: every subset of a 7-item catalogue (text bindings through 4 import forms of two '
-           'fixture modules incl. a method and a nested class, references, and programmatic bindings of statically '
-           'registered configurables from two further modules that no file imports) in 3 binding orders')
+    smoke=[dict(d0=True, d1=True, d2=True, d3=True, d4=False, d5=True, d6=False, perm=1),
+           dict(d0=False, d1=True, d2=False, d3=True, d4=False, d5=False, d6=False, perm=2, d7=True, d8=True, d9=True)],
+    tiers={'quick': dict(split=dict(d0=[False, True], d1=[False, True], d7=[False, True], perm=[0, 1, 2]), budget_s=100),
+           'thorough': dict(split=dict(d0=[False, True], d1=[False, True], d7=[False, True], perm=[0, 1, 2]),
+                            budget_s=300)},
+    bounds='dynamic registration: every subset of a 10-item catalogue (text bindings through 4 import forms of two '
+           'fixture modules incl. a method and a nested class, references, programmatic bindings of statically '
+           'registered configurables from two further modules that no file imports, and values that are a nested '
+           '%constant, a %macro, a @k/gin.singleton()) in 3 binding orders; values compared after the re-parse, '
+           'recorded imports must all be restored (imports the text adds are accepted)')
